@@ -1640,3 +1640,69 @@ func RzswPrec() []Case {
 	mk("control plain", []wg.N{wg.Let("v", vecv), st(0, wg.Idx(wg.I32, wg.Id("v", v3), idx))})
 	return out
 }
+
+// MatDyn is the family of dynamically indexed matrices in function and private space: every column of every matCxR
+// shape is read and written through a run-time index (all in-range values).
+func MatDyn() []Case {
+	var out []Case
+	for c := 2; c <= 4; c++ {
+		for r := 2; r <= 4; r++ {
+			for _, sp := range []string{"function", "private"} {
+				mt := wg.Mat(c, r, wg.F32)
+				col := wg.Vec(r, wg.F32)
+				nIn, nOut := c*r+2, 2*r+1
+				inA, outA := wg.Arr(wg.I32, nIn), wg.Arr(wg.I32, nOut)
+				in := func(i int) wg.N { return wg.Load(wg.RIdx(wg.RVar("inp", inA), wg.LitI(int32(i)), wg.I32)) }
+				st := func(i int, e wg.N) wg.N { return wg.Asg(wg.RIdx(wg.RVar("out", outA), wg.LitI(int32(i)), wg.I32), e) }
+				args := make([]wg.N, c*r)
+				for i := range args {
+					args[i] = wg.Cast(wg.F32, in(i))
+				}
+				m := wg.RVar("m", mt)
+				var globals []wg.N
+				var body []wg.N
+				if sp == "private" {
+					globals = append(globals, wg.Global("m", "private", "", mt, 0, 0, wg.None))
+					body = append(body, wg.Asg(m, wg.Ctor(mt, args...)))
+				} else {
+					body = append(body, wg.Var("m", mt, wg.Ctor(mt, args...)))
+				}
+				ri, wi := in(c*r), in(c*r+1) // read index, write index
+				// read the column selected at run time
+				body = append(body, wg.Let("rc", wg.Load(wg.RIdx(m, ri, col))))
+				for j := 0; j < r; j++ {
+					body = append(body, st(j, wg.Cast(wg.I32, wg.Swz(wg.F32, wg.Id("rc", col), j))))
+				}
+				// overwrite the column selected at run time, then read every element of that column back through a
+				// second dynamic index
+				wargs := make([]wg.N, r)
+				for j := range wargs {
+					wargs[j] = wg.LitF(float32(100 + j))
+				}
+				body = append(body, wg.Asg(wg.RIdx(m, wi, col), wg.Ctor(col, wargs...)))
+				for j := 0; j < r; j++ {
+					body = append(body, st(r+j, wg.Cast(wg.I32, wg.Load(wg.RIdx(wg.RIdx(m, ri, col), wg.LitI(int32(j)), wg.F32)))))
+				}
+				body = append(body, st(2*r, wg.Cast(wg.I32, wg.Load(wg.RIdx(wg.RIdx(m, wg.LitI(int32(c-1)), col), wg.LitI(int32(r-1)), wg.F32)))))
+				gl := append([]wg.N{wg.Global("inp", "storage", "r", inA, 0, 0, wg.None), wg.Global("out", "storage", "rw", outA, 0, 1, wg.None)}, globals...)
+				cs := Case{Family: "matdyn", Desc: fmt.Sprintf("matdyn mat%dx%d %s", c, r, sp), Prog: wg.Program(nil, nil, gl, []wg.N{wg.Entry("main", nil, body)})}
+				for a := 0; a < c; a++ {
+					for b := 0; b < c; b++ {
+						row := make([]int32, nIn)
+						for i := 0; i < c*r; i++ {
+							row[i] = int32(i + 1)
+						}
+						row[c*r], row[c*r+1] = int32(a), int32(b)
+						in := [][]int32{row, make([]int32, nOut)}
+						for range globals {
+							in = append(in, []int32{})
+						}
+						cs.Inputs = append(cs.Inputs, in)
+					}
+				}
+				out = append(out, cs)
+			}
+		}
+	}
+	return out
+}
